@@ -250,9 +250,9 @@ def cases(tier):
     for kind, norb, nelec, opt in [("rhf", 3, (1, 1), O), ("rhf", 3, (2, 2), O), ("uhf", 3, (2, 1), O), ("uhf", 3, (1, 0), O),
                                    ("ghf", 2, (1, 1), O), ("noci", 2, (1, 1), {"ndets": 2}), ("noci", 3, (1, 1), {"ndets": 2}), ("noci", 3, (2, 2), {"ndets": 2}),
                                    ("noci", 3, (2, 1), {"ndets": 2}), ("uhf", 3, (2, 2), O)] + \
-                                  ([("rhf", 4, (2, 2), O), ("uhf", 4, (2, 1), O), ("noci", 3, (2, 1), {"ndets": 3}), ("noci", 4, (2, 2), {"ndets": 2}),
-                                    ("ghf", 3, (1, 1), O)] if tier == "thorough" else []):
+                                  ([("rhf", 4, (2, 2), O), ("noci", 3, (2, 1), {"ndets": 3}), ("noci", 4, (2, 2), {"ndets": 2})] if tier == "thorough" else []):
         out.append({"type": "rdm", "kind": kind, "norb": norb, "nelec": list(nelec), "opt": opt})
+    # not run (measured: polynomial budget exceeded, > 1.5e6 terms): rdm1 uhf (4;2,1) and ghf (3;1,1) with symbolic orthogonal orbitals
     out += mslater.overlap_cases(tier)
     return out
 
